@@ -12,6 +12,14 @@ else is left as written (and an engine that meets it reports unknown syntax -- e
 * a conditional expression that is the whole value of an assignment, augmented assignment or return becomes the
   if/else statement it abbreviates (same order of evaluation: test, then one arm).
 * ``with suppress(A, B): body`` becomes ``try: body`` / ``except (A, B): pass``.
+* ``getattr(x, "name")`` / ``setattr(x, "name", v)`` (statement) with a constant name are the attribute access /
+  assignment they abbreviate; ``(lambda: E)()`` is ``E``.
+* a ``for`` loop over a *literal table* -- a tuple/list display, or a module-level name bound once to one -- whose rows
+  are displays of constants, names, attributes or zero-argument lambdas, is unrolled: one copy of the body per row
+  with the loop variables replaced by the row's elements (then the rewrites above apply: ``getattr(self, attr)``
+  becomes ``self.grpcls``).  Only when that is exactly the same program: no ``break``, ``continue`` only in the
+  guard-clause form ``if c: ...; continue`` (rewritten to if/else), loop variables not rebound in the body, not
+  captured by a nested function and not used after the loop, at most 12 rows.
 * an assignment expression that is evaluated unconditionally and first in the test of an ``if`` (or in an
   expression / assignment / return statement) is hoisted: ``if (m := f(x)) is not None:`` becomes ``m = f(x)``
   followed by ``if m is not None:``.  In an ``elif`` the chain is re-nested (``else: m = ...; if ...``).  Walrus
@@ -163,13 +171,222 @@ def _hoist(expr, at):
     return pre, expr
 
 
+# ------------------------------------------------------------------ table-driven loops
+def _simple_cell(e):
+    if isinstance(e, ast.Constant):
+        return True
+    if isinstance(e, ast.Name):
+        return True
+    if isinstance(e, ast.Attribute):
+        return _simple_cell(e.value)
+    if isinstance(e, ast.Lambda):
+        a = e.args
+        return not (a.args or a.posonlyargs or a.kwonlyargs or a.vararg or a.kwarg)
+    if isinstance(e, (ast.Tuple, ast.List)):
+        return all(_simple_cell(x) for x in e.elts)
+    return False
+
+
+def _elim_continue(body):
+    """`if c: A; continue` + rest  ->  `if c: A` / `else: rest` (top level of a loop body); None when a continue or
+    break of this loop remains somewhere else"""
+    out = []
+    for i, st in enumerate(body):
+        if isinstance(st, ast.If) and st.body and isinstance(st.body[-1], ast.Continue) and not st.orelse:
+            rest = _elim_continue(body[i + 1:])
+            if rest is None:
+                return None
+            new = ast.If(test=st.test, body=(st.body[:-1] or [ast.copy_location(ast.Pass(), st)]), orelse=rest)
+            out.append(ast.copy_location(new, st))
+            break
+        out.append(st)
+
+    def leftover(n, top=True):
+        if isinstance(n, (ast.Break, ast.Continue)):
+            return True
+        if isinstance(n, (ast.For, ast.While, ast.AsyncFor, ast.FunctionDef, ast.AsyncFunctionDef, ast.ClassDef, ast.Lambda)):
+            return False
+        return any(leftover(c, False) for c in ast.iter_child_nodes(n))
+    if any(leftover(st) for st in out):
+        return None
+    return out
+
+
+class _Cells(ast.NodeTransformer):
+    def __init__(self, binding):
+        self.binding = binding
+
+    def visit_Name(self, n):
+        if isinstance(n.ctx, ast.Load) and n.id in self.binding:
+            return ast.copy_location(_copy(self.binding[n.id]), n)
+        return n
+
+
+def _unroll(loop, tables, outside_names):
+    """-> list of statements or None"""
+    if not isinstance(loop, ast.For) or isinstance(loop, ast.AsyncFor):
+        return None
+    it = loop.iter
+    if isinstance(it, ast.Name) and it.id in tables:
+        it = tables[it.id]
+    if not isinstance(it, (ast.Tuple, ast.List)) or not it.elts or len(it.elts) > 12:
+        return None
+    if isinstance(loop.target, ast.Name):
+        names = [loop.target.id]
+        rows = [[r] for r in it.elts]
+    elif isinstance(loop.target, (ast.Tuple, ast.List)) and all(isinstance(x, ast.Name) for x in loop.target.elts):
+        names = [x.id for x in loop.target.elts]
+        rows = []
+        for r in it.elts:
+            if not (isinstance(r, (ast.Tuple, ast.List)) and len(r.elts) == len(names)):
+                return None
+            rows.append(list(r.elts))
+    else:
+        return None
+    if not all(_simple_cell(c) for r in rows for c in r):
+        return None
+    if any(n in outside_names for n in names):
+        return None
+    for st in loop.body:
+        for n in ast.walk(st):
+            if isinstance(n, ast.Name) and n.id in names and isinstance(n.ctx, (ast.Store, ast.Del)):
+                return None
+            if isinstance(n, (ast.Lambda, ast.FunctionDef, ast.AsyncFunctionDef, ast.GeneratorExp)) and any(
+                    isinstance(x, ast.Name) and x.id in names for x in ast.walk(n)):
+                if not isinstance(n, ast.GeneratorExp):
+                    return None          # late binding of the loop variable in a closure
+            if isinstance(n, (ast.Yield, ast.YieldFrom, ast.Await)):
+                return None
+    body = _elim_continue(list(loop.body))
+    if body is None:
+        return None
+    # a name a row refers to must not be rebound by the body (the table is evaluated once, before the loop)
+    stored = {n.id for st in loop.body for n in ast.walk(st) if isinstance(n, ast.Name) and isinstance(n.ctx, ast.Store)}
+    if any(isinstance(x, ast.Name) and x.id in stored for r in rows for c in r for x in ast.walk(c)):
+        return None
+    # locals that every iteration binds afresh before reading them (first thing that happens to them in the body is
+    # an unconditional top-level assignment) and that nothing outside the loop reads: one name per iteration
+    fresh = []
+    for nm in sorted(stored):
+        if nm in outside_names:
+            continue
+        first = None
+        for st in body:
+            if any(isinstance(x, ast.Name) and x.id == nm for x in ast.walk(st)):
+                first = st
+                break
+        if isinstance(first, ast.Assign) and len(first.targets) == 1 and isinstance(first.targets[0], ast.Name) and first.targets[0].id == nm \
+                and not any(isinstance(x, ast.Name) and x.id == nm for x in ast.walk(first.value)):
+            fresh.append(nm)
+
+    class _Ren(ast.NodeTransformer):
+        def __init__(self, k):
+            self.k = k
+
+        def visit_Name(self, n):
+            if n.id in fresh:
+                return ast.copy_location(ast.Name(id=f"{n.id}__{self.k}", ctx=n.ctx), n)
+            return n
+    out = []
+    for k, r in enumerate(rows, 1):
+        binding = dict(zip(names, r))
+        for st in body:
+            new = _Cells(binding).visit(_copy(st))
+            if fresh and len(rows) > 1:
+                new = _Ren(k).visit(new)
+            out.append(new)
+    out += list(loop.orelse)
+    for st in out:
+        ast.copy_location(st, loop) if not hasattr(st, "lineno") else None
+    return out
+
+
+def _module_tables(tree):
+    """module-level NAME = <display> assigned exactly once (and never the target of an augmented assignment)"""
+    count, val = {}, {}
+    for n in ast.walk(tree):
+        if isinstance(n, ast.Name) and isinstance(n.ctx, (ast.Store, ast.Del)):
+            count[n.id] = count.get(n.id, 0) + 1
+    for st in tree.body:
+        if isinstance(st, ast.Assign) and len(st.targets) == 1 and isinstance(st.targets[0], ast.Name) \
+                and isinstance(st.value, (ast.Tuple, ast.List)):
+            val[st.targets[0].id] = st.value
+    return {k: v for k, v in val.items() if count.get(k) == 1}
+
+
 class Desugar(ast.NodeTransformer):
     def __init__(self):
         self.notes = []
+        self.tables = {}
+        self.outside = [set()]
+
+    def visit_Call(self, node):
+        self.generic_visit_expr(node)
+        f = node.func
+        # (lambda: E)()  ->  E
+        if isinstance(f, ast.Lambda) and not node.args and not node.keywords:
+            a = f.args
+            if not (a.args or a.posonlyargs or a.kwonlyargs or a.vararg or a.kwarg):
+                self.notes.append(f"(lambda: ...)() at line {node.lineno} -> its body")
+                return f.body
+        # getattr(x, "name")  ->  x.name
+        if isinstance(f, ast.Name) and f.id == "getattr" and len(node.args) == 2 and not node.keywords \
+                and isinstance(node.args[1], ast.Constant) and isinstance(node.args[1].value, str) and node.args[1].value.isidentifier():
+            self.notes.append(f"getattr(.., {node.args[1].value!r}) at line {node.lineno} -> attribute")
+            return ast.copy_location(ast.Attribute(value=node.args[0], attr=node.args[1].value, ctx=ast.Load()), node)
+        return node
+
+    def generic_visit_expr(self, node):
+        for field, old in ast.iter_fields(node):
+            if isinstance(old, list):
+                new = []
+                for v in old:
+                    if isinstance(v, ast.AST):
+                        v = self.visit_expr(v)
+                    new.append(v)
+                old[:] = new
+            elif isinstance(old, ast.AST):
+                setattr(node, field, self.visit_expr(old))
+
+    def visit_expr(self, node):
+        if isinstance(node, ast.Call):
+            return self.visit_Call(node)
+        if isinstance(node, ast.stmt):
+            return node
+        self.generic_visit_expr(node)
+        return node
+
+    def exprs_of(self, stmt):
+        """apply the expression rewrites to the expressions a statement holds directly"""
+        for field, old in ast.iter_fields(stmt):
+            if field in ("body", "orelse", "finalbody", "handlers", "cases"):
+                continue
+            if isinstance(old, list):
+                old[:] = [self.visit_expr(v) if isinstance(v, ast.expr) else v for v in old]
+                for v in old:
+                    if isinstance(v, (ast.withitem, ast.keyword)):
+                        self.generic_visit_expr(v)
+            elif isinstance(old, ast.expr):
+                setattr(stmt, field, self.visit_expr(old))
 
     def _block(self, stmts):
         out = []
         for s in stmts:
+            if isinstance(s, ast.For):
+                u = _unroll(s, self.tables, self.outside[-1].get(id(s), set()) if isinstance(self.outside[-1], dict) else set())
+                if u is not None:
+                    self.notes.append(f"for loop over a literal table at line {s.lineno} unrolled ({len(u)} statements)")
+                    out.extend(self._block(u))
+                    continue
+            self.exprs_of(s)
+            # setattr(x, "name", v) as a statement  ->  x.name = v
+            if isinstance(s, ast.Expr) and isinstance(s.value, ast.Call) and isinstance(s.value.func, ast.Name) and s.value.func.id == "setattr" \
+                    and len(s.value.args) == 3 and not s.value.keywords and isinstance(s.value.args[1], ast.Constant) \
+                    and isinstance(s.value.args[1].value, str) and s.value.args[1].value.isidentifier():
+                c = s.value
+                self.notes.append(f"setattr(.., {c.args[1].value!r}, ..) at line {s.lineno} -> assignment")
+                s = ast.copy_location(ast.Assign(targets=[ast.Attribute(value=c.args[0], attr=c.args[1].value, ctx=ast.Store())],
+                                                 value=c.args[2]), s)
             r = self.visit(s)
             if isinstance(r, list):
                 out.extend(r)
@@ -257,7 +474,18 @@ class Desugar(ast.NodeTransformer):
         return r if r is not None else node
 
     def visit_FunctionDef(self, node):
-        return self.generic_visit(node)
+        # names used outside each for loop of this function (a loop variable that is read after its loop keeps the
+        # last row's value: such a loop is not unrolled)
+        loops = [n for n in ast.walk(node) if isinstance(n, ast.For)]
+        usage = {}
+        for lp in loops:
+            inside = {id(x) for x in ast.walk(lp)}
+            usage[id(lp)] = {x.id for x in ast.walk(node) if isinstance(x, ast.Name) and id(x) not in inside}
+        self.outside.append(usage)
+        try:
+            return self.generic_visit(node)
+        finally:
+            self.outside.pop()
 
     visit_AsyncFunctionDef = visit_FunctionDef
 
@@ -265,6 +493,7 @@ class Desugar(ast.NodeTransformer):
         return self.generic_visit(node)
 
     def visit_Module(self, node):
+        self.tables = _module_tables(node)
         return self.generic_visit(node)
 
     def visit_For(self, node):
